@@ -165,7 +165,13 @@ impl C11 {
             Ok(e)
         };
         let mut a = mk(true)?;
-        let mut b = mk(false)?;
+        // the real-time machine may well have the fast-load setting enabled: a playing deck is never
+        // fast-loaded from
+        let rt_fast = sc.get("rt_fastload") != 0;
+        if rt_fast {
+            ctx.probe("realtime_with_fastload_setting");
+        }
+        let mut b = mk(rt_fast)?;
         b.play_tape();
         let mut next_block = 0usize;
         for op in sc.ops.iter().filter(|o| o.k == "req") {
@@ -294,6 +300,7 @@ impl C11 {
         let nth = sc.get("nth").clamp(2, 40) as u64;
         set_break_mode(&mut e, BreakMode::EveryNth(nth));
         e.set_speed(rustzx_core::EmulationMode::FrameCount(1));
+        let port = (sc.get("port") as u16) & 0xFFFE;
         let mut frame_no = 0u64;
         let mut level = 2u8;
         let mut edges: Vec<u64> = vec![];
@@ -310,7 +317,7 @@ impl C11 {
             }
             // sample EAR through the ULA port (takes a few T-states of emulated time like any port read)
             let before = e.verif_frame_clocks() as u64;
-            let v = e.verif_bus().read_io(0x7FFE);
+            let v = e.verif_bus().read_io(port);
             let after = e.verif_frame_clocks() as u64;
             if after < before {
                 frame_no += 1;
@@ -324,7 +331,7 @@ impl C11 {
         ctx.sim_t += frames * f;
         ctx.units += 1;
         if edges.len() < 50 {
-            return Err(Fail::new("C11.system_waveform", &format!("contended={}", contended as u8), format!("only {} EAR edges seen in {} frames of a playing pilot tone", edges.len(), frames)));
+            return Err(Fail::new("C11.system_waveform", &format!("contended={}", contended as u8), format!("only {} EAR edges seen in {} frames of a playing pilot tone polled through port {:04X}", edges.len(), frames, port)));
         }
         let n = edges.len() as u64 - 1;
         let avg = (edges[edges.len() - 1] - edges[0]) as f64 / n as f64;
@@ -373,7 +380,7 @@ impl Property for C11 {
         vec!["'about one second' is taken as 3.15M..3.85M T (plus one merged pilot pulse)", "component runs observe the EAR level after every step; pulse length = time between observed level changes", "system runs use blocks of at most 300 bytes"]
     }
     fn expected_probes(&self) -> Vec<&'static str> {
-        vec!["block_crosses_refill", "header_pilot", "deck_stopped_at_end", "system_block_loaded", "system_success", "system_failure_outcome", "system_waveform_contended_cpu"]
+        vec!["block_crosses_refill", "header_pilot", "deck_stopped_at_end", "system_block_loaded", "system_success", "system_failure_outcome", "system_waveform_contended_cpu", "realtime_with_fastload_setting"]
     }
 
     fn gen(&self, rng: &mut Rng, tier: Tier, idx: u64) -> Scenario {
@@ -384,6 +391,11 @@ impl Property for C11 {
             sc.set("contended", rng.chance(3, 4) as i64);
             sc.set("frames", rng.range(6, 14));
             sc.set("nth", rng.range(3, 12));
+            // the even port the machine code would poll: any high byte (no key is held, so every half-row
+            // selection reads the same), any even low byte
+            let hi = if rng.bool() { *rng.pick(&[0xFFi64, 0x7F, 0x00, 0xFE, 0xBF]) } else { rng.range(0, 255) };
+            let lo = if rng.chance(3, 4) { 0xFE } else { rng.range(0, 127) * 2 };
+            sc.set("port", hi << 8 | lo);
             return sc;
         }
         let system = idx % 26 == 25;
@@ -414,6 +426,7 @@ impl Property for C11 {
         } else {
             sc.set("m128", rng.bool() as i64);
             sc.set("mem_seed", (rng.next() >> 8) as i64);
+            sc.set("rt_fastload", rng.bool() as i64);
             let nb = 2;
             let mut blocks = vec![];
             for _ in 0..nb {
